@@ -60,6 +60,20 @@ def _in_nan_region(reg, x):
 
 
 def eval_scalar(spec, x):
+    """Value of a function of the alphabet.  Optional keys ``xs`` (the function is stated in the variables x/xs),
+    ``mul`` and ``add`` (the value is multiplied by mul, then add is added) give exactly scaled copies of a problem
+    when they are powers of two."""
+    if "xs" in spec:
+        x = x / float(spec["xs"])
+    v = _eval_core(spec, x)
+    if "mul" in spec:
+        v = v * float(spec["mul"])
+    if "add" in spec:
+        v = v + float(spec["add"])
+    return v
+
+
+def _eval_core(spec, x):
     k = spec["kind"]
     if _in_nan_region(spec.get("nan"), x):
         return NAN
@@ -704,6 +718,9 @@ def _tr_state(fw, rec):
         "viols": viols,
         "pts_out": float(max(np.max(xl[:, None] - pts, initial=0.0),
                              np.max(pts - xu[:, None], initial=0.0))),
+        "pts_mag": float(max(np.max(np.abs(pts), initial=1.0),
+                             np.max(np.abs(xl[np.isfinite(xl)]), initial=1.0),
+                             np.max(np.abs(xu[np.isfinite(xu)]), initial=1.0))),
     }
 
 
@@ -717,6 +734,9 @@ def _pts_state(fw):
         "resolution": float(fw.resolution),
         "pts_out": float(max(np.max(xl[:, None] - pts, initial=0.0),
                              np.max(pts - xu[:, None], initial=0.0))),
+        "pts_mag": float(max(np.max(np.abs(pts), initial=1.0),
+                             np.max(np.abs(xl[np.isfinite(xl)]), initial=1.0),
+                             np.max(np.abs(xu[np.isfinite(xu)]), initial=1.0))),
     }
 
 
